@@ -549,7 +549,13 @@ def run(ctx):
                 fresh_after = [w for w in defs if isinstance(w.ast, ast.Assign) and isinstance(w.ast.value, ast.Call) and norm(w.ast.value.func).endswith("ResolveResult") and any(fcfg.dominates(x, w.id) for x in sw_ids)]
                 use_nodes = fcfg.nodes_of(cs.node)
                 ok_ = bool(fresh_after) and all(any(fcfg.dominates(w.id, u.id) for w in fresh_after) for u in use_nodes)
-                if ok_ or not memo:
+                # the parse is lazy: it happens inside the call that receives the result - which must still be inside the lenient window
+                off_ids = [n.id for c in q.method_calls(fi, "disable_lenient_args_parsing") for n in fcfg.nodes_of(c)]
+                closed = [u for u in use_nodes if any(u.id in fcfg.reach_strict(d) for d in off_ids)]
+                if closed:
+                    r.fail(fi, cs.node, "%s hands the result on after lenient mode was switched off" % fi.name, "%s switches lenient parsing off again before it hands `%s` to %s: a resolve result parses lazily, "
+                           "so the parse runs strictly after all - `help <cmd>` and `<cmd> --help` fail with 'Not enough arguments' when the command has a required argument" % (fi.short, a.id, norm(cs.node.func)[:50]))
+                elif ok_ or not memo:
                     r.ok("%s: the result handed on is parsed after the switch" % fi.short)
                 else:
                     r.fail(fi, cs.node, "%s hands on a result parsed before the switch" % fi.name, "%s switches the command to lenient parsing and then hands on `%s`, a resolve result that was created - and already parsed, "
